@@ -420,4 +420,3 @@ func specDataFlags(p *chunkPayloadData) uint8 {
 //@   tags C12 C01
 
 //@ auditserial{C16,C01,C05,C06,C07,C11,C14}
-
